@@ -543,8 +543,24 @@ func buildCases(tier string, profiles, preStop map[string]map[string]int64) []ca
 // pwriteCases: a SIGKILL at every page write (pwrite64: SQLite's writes to lq.db and to its rollback journal) of an
 // undisturbed first run - the kill points BETWEEN the writes of one commit, which no Go-level point reaches. The
 // number of writes is measured on the tree under test by one logged run per configuration.
+var pwriteNote string
+
+func pwKillSummary(cs []caseSpec) string {
+	if pwriteNote != "" {
+		return pwriteNote
+	}
+	n := 0
+	for _, c := range cs {
+		if c.Kind == "pwkill" {
+			n++
+		}
+	}
+	return fmt.Sprintf("%d histories with a SIGKILL at the n-th pwrite64 of the first run (strace fault injection)", n)
+}
+
 func pwriteCases(tier string) []caseSpec {
 	if _, err := exec.LookPath("strace"); err != nil {
+		pwriteNote = "page-write kills NOT run: strace is not installed"
 		return nil
 	}
 	var out []caseSpec
@@ -556,12 +572,14 @@ func pwriteCases(tier string) []caseSpec {
 		logf := filepath.Join(os.Getenv("VERIF_TMP"), "c04-pwrites-"+strings.ReplaceAll(d.name(), " ", "_")+".log")
 		v := runHistory(caseSpec{Conf: d, Kind: "stop", Moment: e2e.DrainedMoment, Occ: 1, PwLog: logf}, false, "")
 		b, err := os.ReadFile(logf)
-		if err != nil || len(v.Violations) > 0 {
-			hkit.EngineError("the logged history of %s is not clean: %v %+v", d.name(), err, v.Violations)
-		}
 		n := strings.Count(string(b), "pwrite64(")
-		if n == 0 {
-			hkit.EngineError("no page write seen in the logged history of %s", d.name())
+		if err != nil || n == 0 {
+			// strace is installed but cannot trace here (no ptrace permission): this dimension is not run, and says so
+			pwriteNote = fmt.Sprintf("page-write kills NOT run: strace could not trace the child (%v; %d page writes logged)", err, n)
+			return nil
+		}
+		if len(v.Violations) > 0 {
+			hkit.EngineError("the logged history of %s is not clean: %+v", d.name(), v.Violations)
 		}
 		if tier != "thorough" && n > 64 {
 			n = 64 // quick: the start-up reset, the first claims and the first deletes; thorough: every write of every configuration
@@ -701,7 +719,7 @@ func main() {
 				v = w
 			}
 		}
-		if cs[j].Kind == "kill" {
+		if cs[j].Kind == "kill" || cs[j].Kind == "pwkill" {
 			kills++
 		} else {
 			stops++
@@ -737,7 +755,7 @@ func main() {
 		"rule":    "one evaluation = one history (first run ended by SIGKILL at the n-th hit of a point, or by controler.Stop() at a stop moment; second run drains the same job directory) or one prefix of a final WARC file; non-trivial = the kill/stop happened at the enumerated point; distinct = distinct (point or moment, queue contents at the instant)",
 		"samples": samples, "exhaustive": true, "histories": len(cs), "kill_histories": kills, "stop_histories": stops, "ended_at_the_enumerated_point": fired,
 		"point_not_reached_run_drained": vacuous, "warc_prefixes_read": prefixEvals, "warc_files_prefixed": prefixFiles, "violations_by_signature": sigCount,
-		"hangs_not_reproduced": hangsDismissed, "notes": notes, "profiled_points": profileSizes(cf.Profiles), "per_history": walls,
+		"hangs_not_reproduced": hangsDismissed, "notes": notes, "page_write_kills": pwKillSummary(cf.Cases), "profiled_points": profileSizes(cf.Profiles), "per_history": walls,
 		"explanation": "history: lq.db pre-loaded with four FRESH rows (page + 2 assets; redirect -> page; 404; page with one outlink, max-hops 1); configurations workers {1,2} x seencheck {on,off}; oracle (a) lq.db is empty after the second run, (b) every row absent at the instant has complete records for every response served for it in the files on disk at that instant (.open included), (c) every row present at the instant is requested again in the second run, (d) every prefix of a final WARC file yields exactly the records wholly contained in it",
 	}, []string{
 		"kill points are Zeno's synchronisation points and external calls (instrumented), not every machine instruction, and not points inside the WARC library (its output is covered by the prefix enumeration); the process is killed, the page cache survives (no power loss)",
